@@ -8,6 +8,8 @@ use crate::Comment;
 pub(crate) struct Writer {
     indent: usize,
     outstring: String,
+    // true while the current output line ends inside a line comment ("// ...")
+    line_comment_open: bool,
 }
 
 #[derive(Debug, Clone)]
@@ -50,6 +52,7 @@ impl Writer {
             /* using an initial capacity of 1024 means that usually only MODULE will have to
             reallocate while adding elements. This is a measurable speed improvement. */
             outstring: String::with_capacity(1024),
+            line_comment_open: false,
         }
     }
 
@@ -169,6 +172,7 @@ impl Writer {
                         }
                         self.outstring.push_str(tag);
                         self.outstring.push_str(&item_text);
+                        self.track_line_comment(&item_text);
                         if is_block {
                             self.add_whitespace(end_offset);
                             self.outstring.push_str("/end ");
@@ -188,17 +192,37 @@ impl Writer {
                         for _ in 0..start_offset {
                             self.outstring.push('\n');
                         }
+                        if start_offset > 0 {
+                            self.line_comment_open = false;
+                        }
                         self.outstring.push_str(comment);
+                        self.track_line_comment(comment);
                     }
                 }
             }
         }
     }
 
+    // keep track of whether the current output line ends inside a line comment after `text` was appended
+    fn track_line_comment(&mut self, text: &str) {
+        if let Some(pos) = text.rfind('\n') {
+            self.line_comment_open = ends_with_line_comment(&text[pos + 1..]);
+        } else if !self.line_comment_open {
+            self.line_comment_open = ends_with_line_comment(text);
+        }
+    }
+
     fn add_whitespace(&mut self, offset: u32) {
+        // anything written on the same line behind a line comment would become part of that comment
+        let offset = if offset == 0 && self.line_comment_open {
+            1
+        } else {
+            offset
+        };
         if offset == 0 {
             self.outstring.push(' ');
         } else {
+            self.line_comment_open = false;
             for _ in 0..offset {
                 self.outstring.push('\n');
             }
@@ -260,6 +284,39 @@ impl TaggedItemInfo<'_> {
             TaggedItemInfo::Comment { .. } => None, // no position restriction for comments
         }
     }
+}
+
+// check if a piece of output text (a comment or the text of a sub-element) ends inside a line comment ("// ...")
+fn ends_with_line_comment(lastline: &str) -> bool {
+    let lastline = lastline.as_bytes();
+    let mut in_string = false;
+    let mut in_block_comment = false;
+    let mut idx = 0;
+    while idx < lastline.len() {
+        let c = lastline[idx];
+        let next = lastline.get(idx + 1).copied();
+        if in_string {
+            if c == b'\\' {
+                idx += 1;
+            } else if c == b'"' {
+                in_string = false;
+            }
+        } else if in_block_comment {
+            if c == b'*' && next == Some(b'/') {
+                in_block_comment = false;
+                idx += 1;
+            }
+        } else if c == b'"' {
+            in_string = true;
+        } else if c == b'/' && next == Some(b'*') {
+            in_block_comment = true;
+            idx += 1;
+        } else if c == b'/' && next == Some(b'/') {
+            return true;
+        }
+        idx += 1;
+    }
+    false
 }
 
 fn apply_position_restrictions(group: &mut [TaggedItemInfo]) {
